@@ -294,4 +294,63 @@ theorem C09_retarget_mainnet_keep (prevHeight prevBits firstTs prevTs : Nat)
   rw [if_neg (by intro h; rcases h with h | h; exact hh h; exact hlb h)]
   rw [if_pos hr]
 
+/-! ## the walk over real block nodes -/
+
+/-- `CalcNextRequiredDifficulty` on a chain of block nodes is the timestamp-abstracted `calcNext`
+    applied to the tip and to the node `blocksPerRetarget − 1` steps above it (index
+    `length − blocksPerRetarget` of the oldest-first chain) — provided the chain is at least one
+    retarget window long, which every real block index guarantees. -/
+theorem C09_walk_eq (p : PowParams) (tipHeight : Nat) (chain : List Node) (tip first : Node)
+    (hl : chain.getLast? = some tip) (hlen : p.blocksPerRetarget ≤ chain.length)
+    (hf : chain[chain.length - p.blocksPerRetarget]? = some first) :
+    calcNextChain p tipHeight chain =
+      match calcNext p tipHeight tip.bits first.ts tip.ts with
+      | some b => .ok b
+      | none => .err := by
+  unfold calcNextChain calcNext
+  rw [hl]
+  simp only []
+  split
+  · rfl
+  · split
+    · rfl
+    · split
+      · rfl
+      · rw [hf]
+        simp only []
+        rw [if_neg (by omega)]
+
+/-- The mainnet bounds of `C09_retarget_mainnet`, stated on the node chain itself: the window is
+    measured between the tip and the node 719 blocks above it. -/
+theorem C09_retarget_mainnet_chain (tipHeight : Nat) (chain : List Node) (tip first : Node) (nb : Nat)
+    (hl : chain.getLast? = some tip) (hlen : 720 ≤ chain.length)
+    (hf : chain[chain.length - 720]? = some first)
+    (hh : tipHeight ≠ 0) (hr : (tipHeight + 1) % 2 ^ 32 % 720 = 0) (hold : 0 ≤ compactToBig tip.bits)
+    (hres : calcNextChain Gen.C09.mainnet tipHeight chain = .ok nb) :
+    compactToBig nb ≤ Gen.C09.mainnet.limit ∧ compactToBig nb ≤ 4 * compactToBig tip.bits ∧
+    min (compactToBig tip.bits / 4) Gen.C09.mainnet.limit ≤ compactToBig nb + compactToBig nb / 2 ^ 15 ∧
+    Canonical nb := by
+  have hb : Gen.C09.mainnet.blocksPerRetarget = 720 := C09_gen_mainnet_cfg.2.1
+  rw [C09_walk_eq Gen.C09.mainnet tipHeight chain tip first hl (by rw [hb]; exact hlen) (by rw [hb]; exact hf)] at hres
+  cases hc : calcNext Gen.C09.mainnet tipHeight tip.bits first.ts tip.ts with
+  | none => rw [hc] at hres; cases hres
+  | some b =>
+    rw [hc] at hres
+    injection hres with hres
+    subst hres
+    exact C09_retarget_mainnet tipHeight tip.bits first.ts tip.ts b hh hr hold hc
+
+/-- non-vacuity on a 10-block window (the regnet retarget mode of the harness): nine 1-second
+    blocks after genesis, so the window spans 9 s < 10 s and the target shrinks by 9/10. -/
+example :
+    calcNextChain ⟨4, 10, 1, 2 ^ 255 - 1, 0x2000ffff⟩ 9
+      [⟨100, 0x2000ffff⟩, ⟨101, 0x2000ffff⟩, ⟨102, 0x2000ffff⟩, ⟨103, 0x2000ffff⟩, ⟨104, 0x2000ffff⟩,
+       ⟨105, 0x2000ffff⟩, ⟨106, 0x2000ffff⟩, ⟨107, 0x2000ffff⟩, ⟨108, 0x2000ffff⟩, ⟨109, 0x2000ffff⟩]
+      = .ok 0x2000e665 := by decide
+
+/-- `CalcCurrentDifficulty` panics (division by zero) exactly for bits that decode to zero. -/
+theorem C09_current_difficulty_defined (limitBits bits : Nat) :
+    currentDifficulty limitBits bits = none ↔ compactToBig bits = 0 := by
+  unfold currentDifficulty; split <;> simp_all
+
 end ElaVerif.C09
